@@ -149,7 +149,10 @@ def c11_cases(tier, seed):
     rng = np.random.default_rng([seed, 11])
     cases = []
     tilings = [("honeycomb_lattice", [2]), ("honeycomb_lattice", [3]), ("square_lattice", [2, 2]), ("square_lattice", [3, 4]),
-               ("hex_square_oct_lattice", [2]), ("tri_non_lattice", [2]), ("honeycomb_lattice", [5])]
+               ("hex_square_oct_lattice", [2]), ("tri_non_lattice", [2]), ("honeycomb_lattice", [5]),
+               # regular tilings with many nearly-equal routes: an estimate that is not a lower bound (inadmissible
+               # heuristic) only shows where a second route lies within a fraction of a percent of the optimum
+               ("hex_square_oct_lattice", [3]), ("tri_non_lattice", [3]), ("square_lattice", [5, 4])]
     if tier != "quick":
         tilings += [("honeycomb_lattice", [8]), ("square_lattice", [7, 7]), ("hex_square_oct_lattice", [4]), ("tri_non_lattice", [4]),
                     ("square_lattice", [2, 9]), ("honeycomb_lattice", [12])]
